@@ -39,6 +39,8 @@
 (*                 xt (""|"tcp"|"ipc": explicit bind target)] >>,          *)
 (*   outb  |-> << [lvl, name, tk ("path"|"alias"|"xtcp"|"xipc"), tt, tn,   *)
 (*                 ta, tr] >>]                                             *)
+(*   props |-> << [task, name] >>  stale chans.<name>.0.* defaults in the    *)
+(*                 `properties:` of the task's template]                     *)
 (*  lvl \in {"tmpl:<task>", "role:<task>", "grp", "root"}.                 *)
 (* Known deviations of the code (constants, TRUE = tree as it is):         *)
 (*  Code_ExplicitInboundAdvertisesDynamic, Code_SameTaskAliasLastWins.     *)
@@ -146,7 +148,20 @@ ExpectedOut(c, g, ipc, k) ==
               address |-> Advertised(c, g, ipc, r[1], r[2]), scheme |-> AdvertisedScheme(c, r[1], r[2])]
    : i \in 1..Len(EffOut(c, k))}
 \* what task k is told when the configuration is accepted
-Expected(c, g, ipc, k) == ExpectedIn(c, g, ipc, k) \cup ExpectedOut(c, g, ipc, k)
+\* c.props = << [task, name] >>: the TEMPLATE of the task carries stale hard-coded defaults
+\* `properties: chans.<name>.0.address / .method / .transport` (leftovers of a standalone configuration).
+\* task.go BuildPropertyMap copies the task's properties FIRST and writes the generated channel keys
+\* over them: for a channel the task has declared (bind/connect at any level) the resolved values win;
+\* stale keys of a channel the task does not have are pushed as they are.
+StaleAddr == "tcp://localhost:5555"
+StaleMethod == "connect"
+StaleTransport == "nanomsg"
+DeclaredNames(c, k) == {EffIn(c, k)[i].name : i \in 1..Len(EffIn(c, k))} \cup {EffOut(c, k)[i].name : i \in 1..Len(EffOut(c, k))}
+StaleNames(c, k) == {c.props[i].name : i \in {j \in 1..Len(c.props) : c.props[j].task = k}}
+ExpectedStale(c, k) ==
+  {[name |-> n, method |-> StaleMethod, transport |-> StaleTransport, address |-> StaleAddr, scheme |-> "tcp"]
+   : n \in StaleNames(c, k) \ DeclaredNames(c, k)}
+Expected(c, g, ipc, k) == ExpectedIn(c, g, ipc, k) \cup ExpectedOut(c, g, ipc, k) \cup ExpectedStale(c, k)
 
 ---------------------------------------------------------------------------
 \* THE PROPERTY, as formulas over facts: the case c, the granted ports g, what each task was told
@@ -287,7 +302,8 @@ WellFormed(c) ==
   /\ \A k \in TaskIds(c) : \A i \in 1..Len(EffIn(c, k)), j \in 1..Len(EffOut(c, k)) : EffIn(c, k)[i].name # EffOut(c, k)[j].name
 ExpectedIsFunction(c) ==
   Outcome(c) = "configured" =>
-    \A k \in TaskIds(c) : /\ Cardinality(Expected(c, SymGrant(c), SymIpc, k)) = Len(EffIn(c, k)) + Len(EffOut(c, k))
+    \A k \in TaskIds(c) : /\ Cardinality(Expected(c, SymGrant(c), SymIpc, k)) =
+                                Len(EffIn(c, k)) + Len(EffOut(c, k)) + Cardinality(StaleNames(c, k) \ DeclaredNames(c, k))
                           /\ \A r, q \in Expected(c, SymGrant(c), SymIpc, k) : r.name = q.name => r = q
 ModelViolExplained(c) == ModelViol(c) = AllowedViol(c)
 RejectedIffBad(c) ==
